@@ -51,6 +51,13 @@ CHECKS = {
           'up to 4 notifications before the initial GetServers() returns, on both balancers; in every state eligible endpoints '
           '(active + idle) and known servers equal the reference server set, plus a behavioural dispatch probe for the heap balancer.',
           'scripted server-set provider delivering notifications serially', '3/C05'),
+  'C06': ('B', 'model_checking',
+          'explicit-state BFS by history replay over the real ApertureBalancerSink on a virtual clock, plus exhaustive configuration x traffic-level settling sweeps',
+          'Five (quick) / six (thorough) configurations x all histories of dispatch/complete/clock-advance/down/up/join/leave/'
+          'pending-open outcome/jitter operations to the stated depth; on every transition: active/idle partition equals the server set, '
+          'contraction floor min(min_size, members), load-driven growth ceiling max_size, smoothed load equals an independently '
+          'recomputed EMA, and the step response (grow / shrink / hold). Settling: every configuration x steady level k, 12 smoothing windows.',
+          'stub channels; one virtual clock; step response only on steps with no closed active member', '3/C06'),
 }
 
 NOT_BUILT = 'check not built yet in this session (planned, see DESIGN.md section 3)'
